@@ -1,4 +1,4 @@
-"""Fail-closed translator of the bodies of four Hypergraph mutators - add_node, add_node_to_edge, remove_edge,
+"""Fail-closed translator of the bodies of five Hypergraph mutators - add_node, add_node_to_edge, remove_edge, remove_node,
 remove_node_from_edge (xgi/core/hypergraph.py) - into programs of the small imperative language of
 coq/Model/PyIR.v (coq/Gen/Mutators.v).  `Props/C01.v` proves that running the regenerated programs on a state
 satisfying the class invariant is exactly what the hand-written model does.
@@ -10,6 +10,8 @@ Accepted statements (anything else fails the translation):
     del self._edge[<v>]         del self._edge_attr[<v>]    (and _node / _node_attr)
     update_uid_counter(self, <v>)        self._node_attr[<v>].update(<the **attr of the method>)
     for <x> in self._edge[<v>].copy(): <stmts>            (or self._node[<v>].copy())
+    <name> = self._node[<v>]   (a reference to the stored set; scope = the rest of the block)
+    for <x> in <name>: <stmts>        for <x> in <name>.difference({<v>}): <stmts>        (at most two nested loops)
   <cond> ::= <v> in self._T | <v> not in self._T | <v> [not] in self._T[<v>] | not self._T[<v>] | <flag> | not <cond>
            | <cond> and <cond>
   <v> a label parameter or the loop variable; <flag> a boolean parameter."""
@@ -27,13 +29,14 @@ class TranslationError(Exception):
 
 class M:
     def __init__(self, labels, flags, kwattr=None):
-        self.labels, self.flags, self.loop, self.kwattr = labels, flags, None, kwattr
+        self.labels, self.flags, self.kwattr = labels, flags, kwattr
+        self.loops, self.locals = [], []          # innermost first
 
     def v(self, x):
         if isinstance(x, ast.Name) and x.id in self.labels:
             return f"(VArg {self.labels.index(x.id)})"
-        if isinstance(x, ast.Name) and x.id == self.loop:
-            return "VLoop"
+        if isinstance(x, ast.Name) and x.id in self.loops[:2]:
+            return "VLoop" if self.loops.index(x.id) == 0 else "VLoop1"
         raise TranslationError(f"label not understood: {ast.unparse(x)}")
 
     def selftab(self, x, tables):
@@ -77,7 +80,19 @@ class M:
         raise TranslationError(f"condition not understood: {ast.unparse(c)}")
 
     def block(self, stmts):
-        return "[" + "; ".join(self.stmt(s) for s in stmts) + "]"
+        out = []
+        for i, st in enumerate(stmts):
+            # x = self._T[<v>]: a reference to the stored set; the rest of the block is its scope
+            if isinstance(st, ast.Assign) and len(st.targets) == 1 and isinstance(st.targets[0], ast.Name):
+                s = self.sub(st.value, TABLES)
+                if s:
+                    self.locals.insert(0, st.targets[0].id)
+                    rest = self.block(stmts[i + 1:])
+                    self.locals.pop(0)
+                    out.append(f"(SBindIn {s[0]} {s[1]} {rest})")
+                    return "[" + "; ".join(out) + "]"
+            out.append(self.stmt(st))
+        return "[" + "; ".join(out) + "]"
 
     def stmt(self, st):
         if isinstance(st, ast.If):
@@ -114,21 +129,34 @@ class M:
             s = self.sub(st.targets[0], ATABLES)
             if s:
                 return f"(SDelAttr {s[0]} {s[1]})"
-        if isinstance(st, ast.For) and isinstance(st.target, ast.Name) and not st.orelse and self.loop is None \
-                and isinstance(st.iter, ast.Call) and isinstance(st.iter.func, ast.Attribute) and st.iter.func.attr == "copy" \
-                and not st.iter.args:
-            s = self.sub(st.iter.func.value, TABLES)
-            if s:
-                self.loop = st.target.id
+        if isinstance(st, ast.For) and isinstance(st.target, ast.Name) and not st.orelse and len(self.loops) < 2:
+            it = st.iter
+            if isinstance(it, ast.Call) and isinstance(it.func, ast.Attribute) and it.func.attr == "copy" and not it.args \
+                    and not self.loops:
+                s = self.sub(it.func.value, TABLES)
+                if s:
+                    self.loops.insert(0, st.target.id)
+                    body = self.block(st.body)
+                    self.loops.pop(0)
+                    return f"(SForCopy {s[0]} {s[1]} {body})"
+            minus = None
+            if isinstance(it, ast.Call) and isinstance(it.func, ast.Attribute) and it.func.attr == "difference" and len(it.args) == 1 \
+                    and isinstance(it.args[0], ast.Set) and len(it.args[0].elts) == 1:
+                minus, it = self.v(it.args[0].elts[0]), it.func.value
+            if isinstance(it, ast.Name) and it.id in self.locals:
+                idx = self.locals.index(it.id)
+                self.loops.insert(0, st.target.id)
                 body = self.block(st.body)
-                self.loop = None
-                return f"(SForCopy {s[0]} {s[1]} {body})"
+                self.loops.pop(0)
+                m = "None" if minus is None else f"(Some {minus})"
+                return f"(SForLocal {idx} {m} {body})"
         raise TranslationError(f"statement not understood: {ast.unparse(st)[:90]}")
 
 
 SPEC = [("src_add_node", "add_node", ["node"], []),
         ("src_add_node_to_edge", "add_node_to_edge", ["edge", "node"], []),
         ("src_remove_edge", "remove_edge", ["idx"], []),
+        ("src_remove_node", "remove_node", ["n"], ["strong", "remove_empty"]),
         ("src_remove_node_from_edge", "remove_node_from_edge", ["edge", "node"], ["remove_empty"])]
 
 
@@ -151,7 +179,7 @@ def translate():
 def regenerate():
     defs = translate()
     os.makedirs(GEN, exist_ok=True)
-    text = ("(* GENERATED by harness/translate_mutators.py from xgi/core/hypergraph.py (add_node, add_node_to_edge, remove_edge, remove_node_from_edge) - do not edit. *)\n"
+    text = ("(* GENERATED by harness/translate_mutators.py from xgi/core/hypergraph.py (add_node, add_node_to_edge, remove_edge, remove_node, remove_node_from_edge) - do not edit. *)\n"
             "From Coq Require Import List.\nFrom XV Require Import Base.Outcome Model.PyIR.\nImport ListNotations.\n\n" + "\n".join(defs))
     p = os.path.join(GEN, "Mutators.v")
     if not os.path.exists(p) or open(p).read() != text:
